@@ -9,7 +9,10 @@ from .absint import LazyIter, PyRaise, Sym, Unknown
 
 class PathV:
     def __init__(self, s: str):
-        self.s = s if s == "/" else s.rstrip("/") or "."
+        # as pathlib does: repeated separators and '.' components are dropped ('..' is kept), a trailing separator too
+        absolute = s.startswith("/")
+        parts = [x for x in s.split("/") if x not in ("", ".")]
+        self.s = ("/" if absolute else "") + "/".join(parts) or ("/" if absolute else ".")
 
     def __repr__(self):
         return f"PathV({self.s!r})"
